@@ -190,6 +190,12 @@ def doc_for(kw, gextra, variant, order=0):
     elif variant == "instantiated-direct":
         tpls = [T("T", **kw), T("U1")]
         system = "system T, U1;"
+    elif variant in ("process-set", "process-set-of-partial-instance"):
+        # the template takes part in the system only with a free parameter (one process per value)
+        if "params" in kw:
+            return None
+        tpls = [T("T", params="const int[0,1] zp", **kw), T("U1")]
+        system = "system T, U1;" if variant == "process-set" else "Q(const int[0,1] zq) = T(zq);\nsystem Q, U1;"
     else:
         tpls = [T("T"), T("U1", **kw)]
         system = "P = T(); system P;"
@@ -207,11 +213,15 @@ def run_shard(arg):
     for k, (fid, plc, kw, gx, restr) in enumerate(features()):
         if k % n != i:
             continue
-        for variant in ("instantiated", "instantiated-direct", "uninstantiated"):
+        for variant in ("instantiated", "instantiated-direct", "process-set", "process-set-of-partial-instance", "uninstantiated"):
             if variant == "uninstantiated" and gx:
                 continue     # a global declaration is not inside any template
+            if variant.startswith("process-set") and gx:
+                continue
             for order in (0, 1):
-                cells.append((fid, plc, variant, order, restr, doc_for(kw, gx, variant, order)))
+                d_ = doc_for(kw, gx, variant, order)
+                if d_ is not None:
+                    cells.append((fid, plc, variant, order, restr, d_))
     base = X.run_docs(w, [doc_for({}, "", "instantiated")], want=["noinv"])[0]
     base_methods = base["methods"]
     res = X.run_docs(w, [c[5] for c in cells], want=["noinv"], batch=50)
